@@ -5,23 +5,23 @@ import o2olib as L
 import gen
 
 PROPS = {
-    "C01": {"profiles": ["struct-flat", "member-instrs"], "n_quick": 1500},
-    "C02": {"profiles": ["enum", "multi-counterpart"], "n_quick": 1500},
+    "C01": {"profiles": ["struct-flat", "member-instrs", "shape-change"], "n_quick": 1800},
+    "C02": {"profiles": ["enum", "multi-counterpart", "shape-change"], "n_quick": 1800},
     "C03": {"profiles": ["tree", "parents"], "n_quick": 1800},
     "C04": {"profiles": ["traits", "generics"], "n_quick": 1500},
     "C05": {"profiles": ["member-instrs", "multi-counterpart"], "n_quick": 1500},
-    "C06": {"profiles": ["multi-counterpart", "tree", "enum"], "n_quick": 1500},
-    "C07": {"profiles": ["struct-flat", "tree", "enum"], "n_quick": 1500},
+    "C06": {"profiles": ["multi-counterpart", "tree", "enum", "parents"], "n_quick": 2000},
+    "C07": {"profiles": ["struct-flat", "tree", "enum", "shape-change"], "n_quick": 1800},
     "C08": {"profiles": ["trait-params", "tree", "trait-repeat"], "n_quick": 1800},
     "C09": {"profiles": ["enum-prim"], "n_quick": 1200},
     "C10": {"profiles": ["expr"], "n_quick": 1500},
     "C11": {"profiles": ["generics"], "n_quick": 1500},
     "C12": {"profiles": ["traits", "member-instrs", "enum"], "n_quick": 1500},
-    "C13": {"profiles": ["struct-flat", "enum", "tree", "trait-params"], "n_quick": 1200, "backends": ["s1", "s2"]},
+    "C13": {"profiles": ["struct-flat", "enum", "tree", "trait-params", "unknowns"], "n_quick": 1200, "backends": ["s1", "s2"]},
     "C14": {"profiles": ["repeat", "trait-repeat"], "n_quick": 1800},
-    "C15": {"profiles": ["faults", "hostile", "parents", "trait-repeat"], "n_quick": 2000},
-    "C16": {"profiles": ["hostile", "enum-prim", "tree", "faults", "parents"], "n_quick": 2500},
-    "C17": {"profiles": ["struct-flat", "enum", "tree", "trait-params", "generics"], "n_quick": 1500},
+    "C15": {"profiles": ["faults", "hostile", "parents", "trait-repeat", "unknowns"], "n_quick": 2400},
+    "C16": {"profiles": ["hostile", "enum-prim", "tree", "faults", "parents", "unknowns", "member-instrs"], "n_quick": 3000},
+    "C17": {"profiles": ["struct-flat", "enum", "tree", "trait-params", "generics", "shape-change"], "n_quick": 1800},
     "C18": {"profiles": ["hostile", "struct-flat", "enum", "tree"], "n_quick": 1600, "backends": ["s1", "s2"]},
     "C19": {"profiles": ["faults", "hostile", "multi-counterpart"], "n_quick": 1500},
     "C20": {"profiles": ["expr", "struct-flat", "enum", "tree"], "n_quick": 1500},
@@ -281,7 +281,7 @@ def project_item(it, keep):
 def oracle_c06(cases, results, seed, thorough):
     fails = []
     items = []
-    for k, prof in enumerate(["multi-counterpart", "tree", "enum"]):
+    for k, prof in enumerate(["multi-counterpart", "tree", "enum", "parents"]):
         items += gen.gen_items(prof, seed * 1000 + 900 + k, 200 if not thorough else 2500)
     items = [it for it in items if len(it.meta.get("cparts", [])) >= 2 and not any(c.startswith("(") for c in it.meta["cparts"])]
     full = [(it.meta["id"], gen.render(it)) for it in items]
